@@ -271,14 +271,77 @@ def gen_history(rng, n, etags):
             r = ("RProppatch", rng.choice([c, c, c, item, c[:1]]), x)
         elif k < 0.85:
             r = ("RGet", rng.choice([item, item, c, c[:1], c + (103,)]))
-        elif k < 0.95:
+        elif k < 0.92:
             r = ("RPropfind", rng.choice([c, c, c[:1], (), item]), rng.random() < 0.7)
+        elif k >= 0.95:
+            r = gen_query(rng, rng.choice([c, c, c, item, item, c[:1], c + (103,)]))
         else:
             hs = [rng.choice([c + (rng.choice([100, 101, 102, 200]),), c, (11, 20, 100), (10, 21, 101), c[:1]])
                   for _ in range(rng.randrange(1, 4))]
             r = ("RMultiget", rng.choice([c, c, item]), rng.random() < 0.8, hs)
         hist.append((ui, r))
     return hist
+
+
+QUERY_FILTERS = {
+    # filters by report kind: None = the request has no filter element (free-busy: no time-range)
+    "QCal": [None, None, ("comp", "CEvent"), ("comp", "CTodo"), ("comp", "CJournal"), ("uid", 0), ("uid", 1), ("cid", 0), ("cid", 1)],
+    "QAdr": [None, None, ("uid", 0), ("uid", 1), ("cid", 0), ("cid", 2)],
+    "QSync": [None, None, None, ("comp", "CEvent"), ("uid", 1)],
+    "QFreeBusy": [("range", True), ("range", True), ("range", False), None],
+}
+
+
+def gen_query(rng, target):
+    """REPORT calendar-query / addressbook-query / sync-collection (no token) / free-busy-query on `target`."""
+    kind = rng.choice(["QCal", "QCal", "QAdr", "QSync", "QFreeBusy"])
+    return ("RQuery", target, kind, rng.choice(QUERY_FILTERS[kind]))
+
+
+def query_xml(kind, flt):
+    cal_ns, card_ns = "urn:ietf:params:xml:ns:caldav", "urn:ietf:params:xml:ns:carddav"
+    if kind == "QFreeBusy":
+        tr = ""
+        if flt is not None:
+            tr = ('<C:time-range start="20130101T000000Z" end="20140101T000000Z"/>' if flt[1]
+                  else '<C:time-range start="20150101T000000Z" end="20160101T000000Z"/>')
+        return '<?xml version="1.0"?><C:free-busy-query xmlns:C="%s">%s</C:free-busy-query>' % (cal_ns, tr)
+    if kind == "QAdr":
+        f = ""
+        if flt is not None:
+            name, text = ("UID", "n%d" % flt[1]) if flt[0] == "uid" else ("FN", "cid%d" % flt[1])
+            f = ('<CR:filter><CR:prop-filter name="%s"><CR:text-match collation="i;unicode-casemap" match-type="equals">%s'
+                 '</CR:text-match></CR:prop-filter></CR:filter>' % (name, text))
+        return ('<?xml version="1.0"?><CR:addressbook-query xmlns:D="DAV:" xmlns:CR="%s"><D:prop><D:getetag/><CR:address-data/></D:prop>%s'
+                '</CR:addressbook-query>' % (card_ns, f))
+    f = ""
+    if flt is not None:
+        if flt[0] == "comp":
+            inner = '<C:comp-filter name="%s"/>' % {"CEvent": "VEVENT", "CTodo": "VTODO", "CJournal": "VJOURNAL"}[flt[1]]
+        else:
+            name, text = ("UID", "n%d" % flt[1]) if flt[0] == "uid" else ("SUMMARY", "cid%d" % flt[1])
+            inner = ('<C:comp-filter name="VEVENT"><C:prop-filter name="%s"><C:text-match>%s</C:text-match></C:prop-filter>'
+                     '</C:comp-filter>' % (name, text))
+        f = '<C:filter><C:comp-filter name="VCALENDAR">%s</C:comp-filter></C:filter>' % inner
+    if kind == "QSync":
+        return ('<?xml version="1.0"?><D:sync-collection xmlns:D="DAV:" xmlns:C="%s"><D:sync-token/><D:sync-level>1</D:sync-level>'
+                '<D:prop><D:getetag/></D:prop>%s</D:sync-collection>' % (cal_ns, f))
+    return ('<?xml version="1.0"?><C:calendar-query xmlns:D="DAV:" xmlns:C="%s"><D:prop><D:getetag/><C:calendar-data/></D:prop>%s'
+            '</C:calendar-query>' % (cal_ns, f))
+
+
+def enc_filter(kind, flt):
+    """The filter as a Coq predicate on stored objects (what the concrete XML filter of query_xml means for the
+    objects of the universe: obj_text_component)."""
+    if flt is None:
+        return "None"
+    if flt[0] == "range":
+        return "(Some (fun _ : obj => %s))" % enc_bool(flt[1])
+    if flt[0] == "comp":
+        return "(Some (fun o : obj => match o_comp o with %s => true | _ => false end))" % flt[1]
+    field = "o_uid o" if flt[0] == "uid" else "N.modulo (o_cid o) 10"
+    ev = "" if kind == "QAdr" else "is_event o && "
+    return "(Some (fun o : obj => %sN.eqb (%s) %d))" % (ev, field, flt[1])
 
 
 def open_world(permit_delete=True, permit_overwrite=True):
@@ -405,6 +468,28 @@ def directed_cases():
         reqs.append(("RPut", cal, "CTCard" if body == "empty" else "CTNone", b, ("CNone",), False))
         reqs += observe((10,), cal)
         out.append((open_world(permit_overwrite=permit), hist(reqs)))
+
+    # --- REPORT calendar-query / addressbook-query / sync-collection / free-busy: target x kind x filter
+    plain = (10, 22)
+    base = [mk[cal], mk[adr], ("RMkcol", plain, ("XNone",)), ("RMkcalendar", (11, 20), ("XNone",)),
+            put(cal + (100,), ev(0)), put(cal + (101,), (1, "CTodo", 1)), put(cal + (102,), ev(2, 1)), put(cal + (103,), (3, "CJournal", 2)),
+            put(adr + (200,), cd(0)), put(adr + (201,), cd(1, 2)),
+            ("RPut", (11, 20), "CTNone", ("BCal", [ev(0, 1), ev(1, 0)]), ("CNone",), False)]
+    for kind in ("QCal", "QAdr", "QSync", "QFreeBusy"):
+        reqs = list(base)
+        for tgt in (cal, adr, plain, (10,), cal + (100,), cal + (101,), adr + (200,), cal + (105,), (10, 21, 100), (11, 20), (11, 20, 100), (11, 22)):
+            for flt in dict.fromkeys(QUERY_FILTERS[kind]):
+                reqs.append(("RQuery", tgt, kind, flt))
+        out.append((open_world(), [(2, ("RPropfind", (11,), False))] + hist(reqs)))
+    # the same table under a policy that grants the user r on one calendar only, and R (not r) elsewhere
+    t = {(): "R", (10,): "RW", cal: "r", adr: "w", plain: "R", (11,): "RW", (11, 20): "R"}
+    for kind in ("QCal", "QAdr", "QSync", "QFreeBusy"):
+        reqs = []
+        for tgt in (cal, adr, plain, (10,), cal + (100,), adr + (200,), (11, 20), (11, 20, 100)):
+            for flt in (None, QUERY_FILTERS[kind][-2] if kind != "QFreeBusy" else ("range", True)):
+                reqs.append((2, ("RQuery", tgt, kind, flt)))
+        w = ((True, True), [(None, {}), (10, dict(open_world()[1][1][1])), (11, t)])
+        out.append((w, [(2, ("RPropfind", (11,), False))] + hist(base) + reqs))
     return out
 
 
@@ -562,6 +647,10 @@ class Runner:
             root = "C:calendar-multiget" if cal else "C:addressbook-multiget"
             data = ('<?xml version="1.0"?><%s xmlns:D="DAV:" %s><D:prop><D:getetag/></D:prop>%s</%s>' % (
                 root, ns, "".join("<D:href>%s</D:href>" % path_str(h) for h in hs), root))
+        elif kind == "RQuery":
+            _, p, qk, flt = r
+            method, path = "REPORT", path_str(p)
+            data = query_xml(qk, flt)
         self.last_headers = hdr
         if kind in ("RPut", "RDelete", "RGet", "RPropfind", "RMove") and len(r[1]) == 3 and not path.endswith("/"):
             # another spelling of the same resource: a trailing slash on the URL of an EXISTING item (deterministic choice)
@@ -586,7 +675,8 @@ class Runner:
                 status = "S403F"
             elif "Directory listings" in text:
                 status = "S403Dir"
-            elif "supported-report" in text:
+            elif "supported-report" in text or (kind == "RQuery" and r[2] == "QFreeBusy" and text.startswith("<Element '{DAV:}error'")):
+                # a refused free-busy REPORT answers with str(<Element>) as body (DESIGN 10.2): the error element is not serialised
                 status = "S403Report"
             else:
                 status = "S403?"
@@ -606,15 +696,19 @@ class Runner:
                 payload = ("CPExport", tag, sorted((u, c, k % 10) for u, c, k in parse_objs(text, variant=False)))
             else:
                 payload = ("CPItem", self.etags.by_etag.get(h.get("ETag"), objs[0] if objs else (-1, "CEvent", -1)))
-        elif st == 207 and kind in ("RPropfind", "RMultiget"):
+        elif st == 200 and kind == "RQuery":
+            payload = ("CPBusy", text.count("BEGIN:VFREEBUSY"))
+        elif st == 207 and kind in ("RPropfind", "RMultiget", "RQuery"):
             ms = parse_multistatus_list(b)
             entries = []
             for href, props in ms:
                 p = str_path(href)
                 if isinstance(props, int):
+                    if kind == "RQuery" and r[2] == "QSync":
+                        continue      # sync-collection also reports names deleted earlier (the collection's history): not item data
                     entries.append(("CE404", p))
                     continue
-                if kind == "RMultiget":
+                if kind in ("RMultiget", "RQuery"):
                     et = props.get("D:getetag")
                     if et and et[0] == 200:
                         entries.append(("CEItem", p, self.etags.by_etag.get(et[1].text, (-1, "CEvent", -1)), False))
@@ -785,6 +879,8 @@ def enc_request(r):
         return "(RPropfind %s %s)" % (enc_path(r[1]), enc_bool(r[2]))
     if k == "RMultiget":
         return "(RMultiget %s %s [%s])" % (enc_path(r[1]), enc_bool(r[2]), ";".join(enc_path(h) for h in r[3]))
+    if k == "RQuery":
+        return "(RQuery %s %s %s)" % (enc_path(r[1]), r[2], enc_filter(r[2], r[3]))
     raise ValueError(k)
 
 
@@ -826,6 +922,8 @@ def enc_cresp(c):
         p = "(%s %s)" % (k, enc_obj(pl[1]))
     elif k == "CPExport":
         p = "(CPExport %s %s)" % (pl[1], enc_objs(pl[2]))
+    elif k == "CPBusy":
+        p = "(CPBusy %d)" % pl[1]
     else:
         p = "(CPListing [%s])" % ";".join(enc_centry(e) for e in pl[1])
     return "(%s, %s)" % (status, p)
@@ -846,7 +944,7 @@ def enc_cstore(cs):
 
 COQ_HEADER = """From Coq Require Import List NArith Bool.
 Import ListNotations.
-Require Import RV.Lib.PyStr RV.Model.Store RV.Model.Handlers RV.Model.HandlersCanon.
+Require Import RV.Lib.PyStr RV.Lib.Item RV.Model.Store RV.Model.Handlers RV.Model.HandlersCanon.
 Open Scope N_scope.
 Definition run_case (c : world * list ureq) : list cresp := run_world (fst c) empty_store (snd c).
 Definition run_case_store (c : world * list ureq) : cstore := canon_store (final_store (fst c) empty_store (snd c)).
